@@ -253,6 +253,18 @@ def w_tyrving(mon, ctx, rnd, i, n):
                 if m >= 6000:
                     mm, r = divmod(m, 6000)
                     mon.submit('tyrvingScore', [g, age, ev, '%d:%02d.%d' % (mm, r // 100, (r % 100) // 10)])
+            if kind == 'race' and m >= 6000:
+                # the dotted forms both sides accept (4.35.2, 4.35.20) and, for the long races, hours in both styles
+                mm, r = divmod(m, 6000)
+                mon.submit('tyrvingScore', [g, age, ev, '%d.%02d.%02d' % (mm, r // 100, r % 100)])
+                if m % 10 == 0:
+                    mon.submit('tyrvingScore', [g, age, ev, '%d.%02d.%d' % (mm, r // 100, (r % 100) // 10)])
+                if m >= 360000:
+                    hh, mm2 = divmod(mm, 60)
+                    mon.submit('tyrvingScore', [g, age, ev, '%d:%02d:%02d.%02d' % (hh, mm2, r // 100, r % 100)])
+                    mon.submit('tyrvingScore', [g, age, ev, '%d.%02d.%02d.%02d' % (hh, mm2, r // 100, r % 100)])
+                    if m % 10 == 0:
+                        mon.submit('tyrvingScore', [g, age, ev, '%d.%02d.%02d.%d' % (hh, mm2, r // 100, (r % 100) // 10)])
         mon.submit('tyrvingScore', [g.lower(), str(age), ev, b / 100])
         mon.submit('tyrvingScore', [g, age + 40, ev, b / 100])          # age not tabulated: both refuse
 
